@@ -18,6 +18,9 @@ from typing import Any, Dict, List, Optional
 VERIF = os.path.dirname(os.path.dirname(os.path.abspath(__file__)))
 REPO = os.environ.get("VERIF_REPO", "/repo")
 KNOWN_FILE = os.path.join(VERIF, "known_findings.json")
+EVIDENCE_DIR = os.environ.get("VERIF_EVIDENCE_DIR", os.path.join(VERIF, "evidence"))
+REPLAY_DIR = os.environ.get("VERIF_REPLAY_DIR", os.path.join(VERIF, "replay"))
+EXTRA_EVIDENCE = {}
 
 
 class AnalysisError(Exception):
@@ -171,8 +174,8 @@ def run_check(prop: str, fn, tier: str, replay: Optional[str] = None) -> int:
     if unknown:
         status = 1  # a located violation outranks an analysis error raised later in the same run
     if unknown:
-        os.makedirs(os.path.join(VERIF, "replay"), exist_ok=True)
-        replay_path = os.path.join(VERIF, "replay", f"{prop}.json")
+        os.makedirs(REPLAY_DIR, exist_ok=True)
+        replay_path = os.path.join(REPLAY_DIR, f"{prop}.json")
         with open(replay_path, "w") as fh:
             json.dump(
                 {
@@ -264,6 +267,7 @@ def write_evidence(cx: Check, tier, seed, wall, matched, unknown, err):
             "checker_cmd": f"cd /verif && ./check {cx.prop} --tier {tier}",
             "trusted_base": ["CPython ast module", "clang 14 front end (where used)", "the rule tables in /verif/sa/rules"],
             **cx.extra,
+            **EXTRA_EVIDENCE,
         },
         "assumptions": cx.assumptions
         + ["decides the structural clauses named in the rules, not the run-time behaviour itself"],
@@ -272,8 +276,8 @@ def write_evidence(cx: Check, tier, seed, wall, matched, unknown, err):
     }
     if err:
         ev["coverage"]["analysis_error"] = err.splitlines()[0]
-    os.makedirs(os.path.join(VERIF, "evidence"), exist_ok=True)
-    with open(os.path.join(VERIF, "evidence", f"{cx.prop}.json"), "w") as fh:
+    os.makedirs(EVIDENCE_DIR, exist_ok=True)
+    with open(os.path.join(EVIDENCE_DIR, f"{cx.prop}.json"), "w") as fh:
         json.dump(ev, fh, indent=1, default=str)
 
 
